@@ -903,7 +903,9 @@ func (c *FnCtx) quantifier(fr *Frame, st *State, universal bool, n *Term, fv Sym
 	if !ok || f.fn == nil {
 		unsupported("quantifier body must be a function literal")
 	}
-	bv := ts.Bound("i", SInt)
+	bv := ts.BoundNamed(fmt.Sprintf("i!%s!%d", f.fn.Name(), c.qdepth), SInt)
+	c.qdepth++
+	defer func() { c.qdepth-- }()
 	work := st.clone()
 	// the body is evaluated for an index in range: facts generated inside are guarded by the range
 	work.pc = ts.And(st.pc, ts.Le(ts.Int(0), bv), ts.Lt(bv, n))
@@ -935,7 +937,9 @@ func (c *FnCtx) quantifierKeys(fr *Frame, st *State, mt types.Type, m *Term, fv 
 		unsupported("quantifier body must be a function literal")
 	}
 	mh := c.mapHeaps(st, mt)
-	bv := ts.Bound("k", mh.ks)
+	bv := ts.BoundNamed(fmt.Sprintf("k!%s!%d", f.fn.Name(), c.qdepth), mh.ks)
+	c.qdepth++
+	defer func() { c.qdepth-- }()
 	dom := ts.Select(c.hget(st, mh.dom, mh.sdom, m), bv)
 	val := ts.Select(c.hget(st, mh.sel, mh.ssel, m), bv)
 	work := st.clone()
